@@ -2,6 +2,8 @@ mod alphabet;
 mod checks;
 mod codecx;
 mod enc;
+mod imagex;
+mod lockx;
 mod model;
 mod names;
 mod probes;
@@ -24,6 +26,7 @@ fn main() {
             checks::run_check(prop, tier)
         }
         Some("seqx-worker") => checks::seq_worker(&args[2], &args[3], args[4].parse().unwrap()),
+        Some("lock-contender") => lockx::contender_main(&args[2]),
         Some("selftest") => checks::selftest(),
         Some("replay") => checks::replay(args.get(2).expect("replay file")),
         _ => {
